@@ -86,6 +86,9 @@ def observe_jit(case, method_cache=None) -> Obs:
     except engine.InternalError as e:
         o.status, o.reason = "internal", str(e)
         return o
+    from .common import note_current
+
+    note_current({"executor": "jit", "case": case.describe()})
     ins = engine.jit_inputs(case)
     try:
         result = m(**ins)
